@@ -70,6 +70,17 @@ def gen_case(rng, tier, avoid):
     if data:
         params['data'] = data
     params['source'] = src if not data else data['kind']
+    if rng.random() < 0.4 and configs[0]['ocs'][0] != 'default':
+        # the same configurations once more as ONE process history (distinct target paths), optionally with a failed attempt
+        # (I/O error at a seeded event of a flush) in between: what one write buffers must not reach the next
+        seq = {'order': [rng.random() for _ in configs], 'fault': None}
+        if rng.random() < 0.6:
+            fk = rng.choice(['write_fail', 'write_fail', 'close_fail', 'open_fail'])
+            flush = rng.choice([0, 1, 1, 2, 3, 5])
+            seq['fault'] = {'kind': fk, 'at_event': 3 * flush + {'open_fail': 0, 'write_fail': 1, 'close_fail': 2}[fk],
+                            'partial': rng.choice([0, 0, 13, 100]), 'errno': rng.choice([5, 28]), 'lose': 0,
+                            'before': rng.randrange(len(configs)), 'cfg': rng.randrange(len(configs))}
+        params['sequence'] = seq
     return {'scenario': {'env': {'tz': 'UTC'}, 'history': ops}, 'params': params}
 
 
@@ -136,11 +147,9 @@ def check_case(case, ex):
                     return
             last = ev
 
-    for cfg in P['configs']:
+    def cfg_kw(cfg):
         if cfg['ocs'][0] == 'default':
             ocs, kw = None, {'default_ocs': True}
-            case = dict(case, scenario=dict(case['scenario'], env=dict(case['scenario'].get('env') or {}, run_cap_s=300)))
-            bump(pr, 'default_output_chunk_4GiB')
         else:
             ocs = C.resolve_ocs(cfg['ocs'], mrl, len(R))
             kw = {'output_chunk_size': ocs}
@@ -151,9 +160,17 @@ def check_case(case, ex):
                 kw['prior'] = {'hex': (R + b'\x00' * cfg['prior'].get('extra', 0)).hex()}
             else:
                 kw['prior'] = cfg['prior']
-            bump(stats['faults'], 'prior_content')
         if cfg.get('path_kind'):
             kw['path_kind'] = cfg['path_kind']
+        return ocs, kw
+
+    for cfg in P['configs']:
+        ocs, kw = cfg_kw(cfg)
+        if cfg['ocs'][0] == 'default':
+            case = dict(case, scenario=dict(case['scenario'], env=dict(case['scenario'].get('env') or {}, run_cap_s=300)))
+            bump(pr, 'default_output_chunk_4GiB')
+        if 'prior' in cfg:
+            bump(stats['faults'], 'prior_content')
         res = ex(C.scenario_with(case, [wop(**kw)]))
         stats['execs'] += 1
         st = C.last_write(res)
@@ -221,5 +238,42 @@ def check_case(case, ex):
                                    outcome=st3['out'], len_got=len(st3.get('file') or b''), len_ref=len(R),
                                    torn_size=st3.get('prior_size')))
                 check_events(st3, st3.get('file'), cfg, 'restart')
+    seq = P.get('sequence')
+    if seq and all(c['ocs'][0] != 'default' for c in P['configs']):
+        order = sorted(range(len(P['configs'])), key=lambda j: (seq['order'][j] if j < len(seq['order']) else 0, j))
+        sops, scfg = [], []
+        flt = seq.get('fault')
+        for n, j in enumerate(order):
+            cfg = P['configs'][j]
+            if flt and flt.get('before', 0) % len(order) == n:
+                fc = P['configs'][flt.get('cfg', 0) % len(P['configs'])]
+                f1 = {k: v for k, v in flt.items() if k not in ('before', 'cfg')}
+                sops.append(wop(path='seq_failed.dlis', faults=[f1], **cfg_kw(fc)[1]))
+                scfg.append(fc)
+            sops.append(wop(path='seq%d.dlis' % n, **cfg_kw(cfg)[1]))
+            scfg.append(cfg)
+        res4 = ex(C.scenario_with(case, sops))
+        stats['execs'] += 1
+        bump(pr, 'same_process_sequence')
+        failed_before = False
+        for op4, cfg, st4 in zip(sops, scfg, res4['steps'][-len(sops):]):
+            if st4 is None or st4.get('out') == 'skip':
+                continue
+            if op4.get('faults') and st4.get('faults_fired'):
+                for fk in st4['faults_fired']:
+                    bump(stats['faults'], fk + '_before_next_write')
+                failed_before = True
+                continue
+            extra = {'what': 'same_process_sequence', 'after_failed_attempt': failed_before}
+            if st4['out'] != 'ok':
+                out.append(C.V('C10.config_rejected', _fp(cfg, rows, extra), exc=st4.get('exc'), msg=st4.get('msg')))
+            elif st4.get('file') != R:
+                F4 = st4.get('file') or b''
+                d = next((i for i in range(min(len(F4), len(R))) if F4[i] != R[i]), min(len(F4), len(R)))
+                out.append(C.V('C10.bytes_differ_across_chunks', _fp(cfg, rows, extra), first_diff=d, len_ref=len(R),
+                               len_got=len(F4)))
+            else:
+                check_events(st4, st4.get('file'), cfg, 'sequence')
+        nontrivial = True
     stats['nontrivial'] = nontrivial
     return {'violations': out, 'stats': stats}
